@@ -84,6 +84,10 @@ package traversal
 //@   before explore assert[C15] !haveStartAtPath || reachedStartAtPath || prog.PastStartAtPath || len(prog.Path.segments) >= len(prog.Cfg.StartAtPath.segments)
 //@   before explore assert[C07] carg2 == s && carg3 == n && carg5 == v && carg6 == ps
 //@   ensures[C15] prog.Budget != nil && old(prog.Budget.NodeBudget) <= 0 ==> iserr(err, "*ErrBudgetExceeded")
+//   a successful walk of a map or list has gone through every child (no stated interests) or through
+//   every stated interest, in order: neither loop is left early
+//@   ensures[C07] err == nil && attn == nil && itr != nil ==> itr.pos >= datamodel.vlen(itr.src)
+//@   ensures[C07] err == nil && attn != nil && len(attn) > 0 ==> rangeindex + 1 >= len(attn)
 //@   loop 0 assigns foreign, prog.PastStartAtPath, reachedStartAtPath
 //@   loop 0 invariant prog.Cfg == old(prog.Cfg) && prog.Path == old(prog.Path) && prog.Budget == old(prog.Budget) && prog.SeenLinks == old(prog.SeenLinks) && itr != nil
 //@   loop 1 assigns foreign, prog.PastStartAtPath, reachedStartAtPath
